@@ -1,6 +1,6 @@
 (* Correspondence entry points for C12 (tree -> tree), extracted to OCaml. *)
 From Coq Require Import NArith List Bool String.
-From RC Require Import lib.Result lib.Tree model.Flags model.Enums gen.GenFlags gen.GenEnums.
+From RC Require Import lib.Result lib.Tree model.Flags model.Enums model.Scalars gen.GenFlags gen.GenEnums.
 Import ListNotations.
 Local Open Scope N_scope.
 
@@ -49,6 +49,18 @@ Definition run (t : tree) : tree :=
           | None => t_bad
           end
       | _, _ => t_bad
+      end
+  | L [I 5; I raw] => I (hp_decode raw)      (* hit points: raw -> number of 10^-8 units *)
+  | L [I 6; I d] => I (hp_encode d)          (* hit points: 10^-8 units -> raw (truncation) *)
+  | L [I 7; I n] =>                           (* AI script: u32 -> known index | unknown name *)
+      t_result (fun a => match a with
+                         | AiKnown i => L [I 0; I (N.of_nat i)]
+                         | AiUnknown s => L [I 1; L (map I s)]
+                         end) (ai_decode n)
+  | L [I 8; I k; name] =>                     (* AI script: (0 index) | (1 name) -> u32 *)
+      match p_bytes name with
+      | Some cs => t_result I (ai_encode (if k =? 0 then AiKnown (N.to_nat (match cs with x :: _ => x | [] => 0 end)) else AiUnknown cs))
+      | None => t_bad
       end
   | _ => t_bad
   end.
